@@ -242,3 +242,44 @@ def lock_hook(fn, rename_into=False):
         yield
     finally:
         HOOK, RENAME_INTO = old
+
+
+# ------------------------------------------------------------- strict rename
+# Local POSIX rename() silently replaces an *empty* destination directory;
+# memory, sftp, smart and most remote transports refuse any existing
+# destination.  LockDir is written for the strict behaviour ("exactly one
+# attempt to claim the lock will succeed"), so lock states are also exercised
+# on a seam transport that refuses to rename onto anything that exists.
+
+STRICT_PREFIX = "vfs+"
+
+
+class StrictRenameTransport(ft.SeamTransport):
+    @classmethod
+    def _get_url_prefix(cls):
+        return STRICT_PREFIX
+
+    def rename(self, a, b):
+        def fn():
+            from dromedary import errors as de
+            try:
+                self._decorated.stat(b)
+            except de.NoSuchFile:
+                return self._decorated.rename(a, b)
+            raise de.FileExists(b)
+        return ft.SeamTransport._do(self, "rename", a, fn)
+
+
+_strict_installed = False
+
+
+def strict_transport(path):
+    """vfs+file:// transport for path: counted / faulted like vf+, and rename
+    fails with FileExists when the destination exists."""
+    global _strict_installed
+    import dromedary
+    from breezy import transport as _t, urlutils
+    if not _strict_installed:
+        dromedary.register_transport(STRICT_PREFIX, StrictRenameTransport)
+        _strict_installed = True
+    return _t.get_transport(STRICT_PREFIX + urlutils.local_path_to_url(path))
